@@ -607,6 +607,42 @@ func main() {
 		e.strs("authorizationHeaderMethods", hm, a.funcDecl("forwardRequest") != nil, []string{"Del"}, "agent forwardRequest: Header methods applied to headerAuthorization, in order")
 		caps := u.chanCaps(u.funcDecl("NewResponseForwarder"))
 		e.zs("responseForwarderChanCaps", caps, u.funcDecl("NewResponseForwarder") != nil, []int64{0, 1, 1}, "agent/utils NewResponseForwarder: make(chan) capacities in source order")
+		// hostProxy.FlushInterval = <duration> ; resp.TransferEncoding = []string{"chunked"} in NewResponseForwarder
+		var flush *big.Rat
+		var flushErr error = fmt.Errorf("not found")
+		if fd := a.funcDecl("hostProxy"); fd != nil {
+			ast.Inspect(fd.Body, func(n ast.Node) bool {
+				as, ok := n.(*ast.AssignStmt)
+				if !ok || len(as.Lhs) != 1 || len(as.Rhs) != 1 {
+					return true
+				}
+				if sel, ok := as.Lhs[0].(*ast.SelectorExpr); ok && sel.Sel.Name == "FlushInterval" {
+					flush, flushErr = a.eval(as.Rhs[0], 0)
+				}
+				return true
+			})
+		}
+		e.z("flushInterval", flush, flushErr, 100000000, "agent hostProxy: ReverseProxy.FlushInterval (ns)")
+		var forced []string
+		if fd := u.funcDecl("NewResponseForwarder"); fd != nil {
+			ast.Inspect(fd.Body, func(n ast.Node) bool {
+				as, ok := n.(*ast.AssignStmt)
+				if !ok || len(as.Lhs) != 1 || len(as.Rhs) != 1 {
+					return true
+				}
+				if sel, ok := as.Lhs[0].(*ast.SelectorExpr); ok && sel.Sel.Name == "TransferEncoding" {
+					if cl, ok := as.Rhs[0].(*ast.CompositeLit); ok {
+						for _, el := range cl.Elts {
+							if s, ok := strLit(el); ok {
+								forced = append(forced, s)
+							}
+						}
+					}
+				}
+				return true
+			})
+		}
+		e.strs("forcedTransferEncoding", forced, u.funcDecl("NewResponseForwarder") != nil, []string{"chunked"}, "agent/utils NewResponseForwarder: TransferEncoding forced on the uploaded response")
 		roots := []string{"processOneRequest", "forwardRequest", "pollForNewRequests", "hostProxy"}
 		fs := a.fatalSites(roots)
 		e.strs("fatalSitesAgentRequestPath", fs, a.funcDecl("processOneRequest") != nil, nil, "agent: fatal calls reachable from processOneRequest/forwardRequest/pollForNewRequests/hostProxy")
